@@ -517,7 +517,7 @@ struct SplineJudge {
             T v = sp.calcValue(S.x[i]);
             for (int q = 0; q < TT<T>::N; ++q)
                 c.check("interp:spline:deg" + std::to_string(d) + ":" + TT<T>::name() + ":" + (i == 0 ? "first" : (i == n - 1 ? "last" : "interior")) + "-knot",
-                        std::fabs(TT<T>::get(v, q) - TT<T>::get(y[i], q)), 1e-10 * (cmax + 1e-300),
+                        std::fabs(TT<T>::get(v, q) - TT<T>::get(y[i], q)), 1e-8 * (cmax + 1e-300),   // cmax includes the B-spline coefficients, i.e. it grows with the conditioning of the knot set
                         [&] { return wit(i, S.x[i]).set("lib", TT<T>::get(v, q)).set("y", TT<T>::get(y[i], q)).set("comp", q); });
         }
     }
